@@ -4,7 +4,7 @@ Nothing here has behaviour: constructors only store; the link machinery is judge
 instances.  Compute functions are injective on the value alphabet of the check, so a target computed from a stale
 (non-final) source value is always distinguishable from the correct one.
 """
-from typing import Dict, List, Optional
+from typing import Any, Dict, List, Mapping, Optional
 
 
 class Data:
@@ -148,4 +148,61 @@ def fnot(a):
     return not a
 
 
+# Links with SEVERAL sources of which some are group-valued (family `mix`): a parameter annotated as a mapping
+# (dict / Dict[...] / Mapping[...]) is documented to receive the group as a plain dict, whatever its position among
+# the sources; an unannotated one receives the Namespace (both support g["n"]).  `_gd` makes the kind of object
+# that arrived visible in the result (999 is no value n * 10 + m can take on the alphabet of the check); the
+# reference model calls the same functions with plain dicts.
+
+
+def _gd(g):
+    return g["n"] * 10 + g["m"] if type(g) is dict else 999
+
+
+def _gn(g):
+    return g["n"] * 10 + g["m"]
+
+
+def mix_s_gd(s: int, g: dict):
+    return s * 1000 + _gd(g)
+
+
+def mix_gd_s(g: Dict[str, int], s: int):
+    return _gd(g) * 1000 + s
+
+
+def mix_s_gn(s: int, g):
+    return s * 1000 + _gn(g)
+
+
+def mix_gn_s(g, s: int):
+    return _gn(g) * 1000 + s
+
+
+def mix_gd_gd(g: Mapping[str, Any], h: dict):
+    return _gd(g) * 1000 + _gd(h)
+
+
+def mix_gd_gn(g: Dict[str, Any], h):
+    return _gd(g) * 1000 + _gn(h)
+
+
+def mix_gn_gd(g, h: Dict[str, int]):
+    return _gn(g) * 1000 + _gd(h)
+
+
+def mix_s_s_gd(s: int, s2: int, g: dict):
+    return (s * 100 + s2) * 1000 + _gd(g)
+
+
+def mix_s_gn_gd(s: int, g, h: Mapping[str, int]):
+    return (s * 1000 + _gn(g)) * 1000 + _gd(h)
+
+
+def mix_gd_s_gd(g: dict, s: int, h: dict):
+    return (_gd(g) * 100 + s) * 1000 + _gd(h)
+
+
 FUNCS = {"fopt": fopt, "flist": flist, "fnot": fnot, "f1": f1, "f2": f2, "fgroup": fgroup, "fgroup_dict": fgroup_dict, "fspec": fspec, "fbad": fbad, "fhalf": fhalf}
+FUNCS.update({f.__name__: f for f in (mix_s_gd, mix_gd_s, mix_s_gn, mix_gn_s, mix_gd_gd, mix_gd_gn, mix_gn_gd, mix_s_s_gd,
+                                       mix_s_gn_gd, mix_gd_s_gd)})
